@@ -498,6 +498,7 @@ def write_replay(prop, failure, extra):
     return path
 
 
+LAST_WAIVED = []
 # (unit regex, function regex, message regex, complete Kani harnesses deciding the same contract for every input)
 PROOF_ALTERNATIVES = [
     (r'^(backend|frontend|proxy|gpu)$', r'^is_valid$', r'postcondition',
@@ -582,6 +583,8 @@ def run_property(prop, tier="quick", seed=0, keep=False):
     # pass (run on demand): the solver failing to re-prove an equivalent formulation (e.g. `x % 16 == 0` for `x & 0xf == 0`) is
     # a proof gap, the Kani harness is the deciding step for that contract
     failures, waived = waive_by_alternative_proofs(prop, tier, failures, kres)
+    global LAST_WAIVED
+    LAST_WAIVED = [dict(obligation=w[0], discharged_instead_by=w[1]) for w in waived]
     for w in waived:
         print("NOTE: %s not re-proved by Verus; the same contract is discharged on the real code by %s" % (w[0], ", ".join(w[1])))
     # classify failures
@@ -686,6 +689,7 @@ def write_evidence(prop, tier, seed, kres, vres, obligations, discharged, violat
             syntactic_obligations=scans[:40],
             syntactic_obligations_total=len(scans),
             known_findings=[k["text"] for f, k in known_hits],
+            verus_obligations_discharged_by_kani_instead=LAST_WAIVED,
             failed_obligations=[f["key"] for f in violations],
             undecided=undecided,
             explanation="obligations = complete Kani harnesses (one each; bounded ones listed separately, never counted) + labelled Verus postconditions of this property + one safety obligation set per extracted function",
